@@ -33,6 +33,7 @@ class Server:
         self.custom = None
         self.noidle_inside_idle_reply = False
         self.known_lines = None
+        self.barriers = []           # absolute stream offsets at which a delivery ends even without a line feed
         t.on_write = self.on_write
     def send(self, data):
         self.t.stream.extend(data)
@@ -298,6 +299,11 @@ class Session:
             e = len(rest)
         if partial and e > 1:
             e = max(1, e // 2)
+        for b in list(self.server.barriers):
+            if lim < b < lim + e:
+                e = b - lim
+                self.server.barriers.remove(b)
+                break
         t.limit = lim + e
         self.mark_dirty()
         self.steps.append('deliver%s' % ('/2' if partial else ''))
@@ -458,10 +464,15 @@ class Session:
             if self.loop is not None and not self.loop_done and self.loop_dirty:
                 self.poll_loop()
             self.t.write_budget = None; self.mark_dirty(); self.steps.append('unblock')
+        step = getattr(self, 'step_deliver', False)          # deliver one segment, then let everything run (instead of draining)
+        if step:
+            rounds = max(rounds, 60)
         for r in range(rounds):
             progress = False
             while self.undelivered() > 0:
                 self.deliver(); progress = True
+                if step:
+                    break
             for _ in range(6):
                 moved = False
                 if self.loop is not None and not self.loop_done and self.loop_dirty:
@@ -473,7 +484,7 @@ class Session:
                         n = len(c.results)
                         self.poll_caller(c.idx)
                         moved = moved or len(c.results) != n
-                if self.undelivered() > 0:
+                if self.undelivered() > 0 and not step:
                     moved = True
                     while self.undelivered() > 0:
                         self.deliver()
